@@ -266,6 +266,15 @@ fn parse_frame(spot: bool, toks: &[String]) -> Option<FrameSpec> {
             let i: usize = toks[1].parse().ok()?;
             Some(FrameSpec::Text(BAD_TEXTS[i % BAD_TEXTS.len()].to_string()))
         }
+        // a Binary frame that does not deserialise: the bytes of one of the bad texts, or bytes that are not UTF-8
+        "binbad" if toks.len() == 2 => {
+            let i: usize = toks[1].parse().ok()?;
+            Some(FrameSpec::Binary(if i % 9 == 8 {
+                vec![0xff, 0xfe, 0x7b]
+            } else {
+                BAD_TEXTS[i % 9].as_bytes().to_vec()
+            }))
+        }
         "ping" if toks.len() == 1 => Some(FrameSpec::Ping),
         "pong" if toks.len() == 1 => Some(FrameSpec::Pong),
         "raw" if toks.len() == 1 => Some(FrameSpec::Raw),
@@ -656,6 +665,34 @@ fn genuine_msg(rng: &mut Rng, spot: bool, sym: usize, v: &[Chg], grid: &[String]
     }
 }
 
+/// input classes of the `d…` family (input-domain audit, as in c06.rs); `Dom::default()` = the classic families,
+/// which draw exactly the random numbers they always drew
+#[derive(Clone, Copy, Default)]
+struct Dom {
+    /// added to every id of the venue (real ids are ~2e10 spot / ~1e12 futures; boundaries 2^32, 2^53, 2^63, 2^64)
+    offset: u64,
+    /// prices / amounts of extreme but exact magnitude (1e-8 … 1e12, 17+ significant digits)
+    wide: bool,
+    /// the same price written with different scales (`100`, `100.0`, `100.00`) in snapshots and updates
+    restyle: bool,
+    /// non-genuine updates whose ids continue a DELIVERED update (pu = its u, U arbitrary incl. U > u and 0,
+    /// u = its u … u+2) with levels that repeat a price with different amounts
+    cont_garbage: bool,
+    /// Binary frames that do not deserialise (`binbad i`), incl. bytes that are not UTF-8
+    binjunk: bool,
+}
+
+const OFFSETS: [u64; 8] = [
+    0,
+    (1 << 32) - 20,
+    22_611_425_143,
+    1_000_000_000_000,
+    (1 << 53) - 20,
+    (1 << 63) - 20,
+    u64::MAX - 400,
+    u64::MAX - 1_000_000,
+];
+
 fn amount(rng: &mut Rng, zero_pct: u64) -> String {
     if rng.chance(zero_pct) {
         return (*rng.pick(&["0", "0.0", "0.00000000"])).to_string();
@@ -663,13 +700,53 @@ fn amount(rng: &mut Rng, zero_pct: u64) -> String {
     (*rng.pick(&["1", "0.5", "2.5", "1.25000000", "10"])).to_string()
 }
 
-fn gen_venue(rng: &mut Rng, max_changes: i64) -> (Vec<Chg>, Vec<String>) {
-    let (base, step, scale) = *rng.pick(&[(100i64, 1i64, 0u32), (1000, 5, 1), (99990, 5, 2), (1, 1, 4)]);
+fn amount_dom(rng: &mut Rng, zero_pct: u64, dom: &Dom) -> String {
+    if !dom.wide {
+        return amount(rng, zero_pct);
+    }
+    if rng.chance(zero_pct) {
+        return (*rng.pick(&["0", "0.0", "0.00000000"])).to_string();
+    }
+    (*rng.pick(&["0.00000001", "123456789.12345678", "1000000000000", "1000000000000.00000001", "0.1", "0.30000000", "2.5"])).to_string()
+}
+
+/// another spelling of the same decimal
+fn respell(rng: &mut Rng, d: &str) -> String {
+    let zeros = if rng.chance(50) { "0" } else { "00" };
+    if d.contains('.') { format!("{d}{zeros}") } else { format!("{d}.{zeros}") }
+}
+
+fn restyle_levels(rng: &mut Rng, ls: &mut [String]) {
+    for l in ls.iter_mut() {
+        if rng.chance(25) {
+            let (p, a) = l.split_once(':').expect("level");
+            *l = format!("{}:{a}", respell(rng, p));
+        }
+    }
+}
+
+/// levels of a non-genuine update that may state a price several times with different amounts
+fn garbage_side_dup(rng: &mut Rng, grid: &[String], dom: &Dom) -> Vec<String> {
+    let mut ls = vec![];
+    for _ in 0..rng.range(0, 4) {
+        let p = rng.pick(grid).clone();
+        ls.push(format!("{p}:{}", amount_dom(rng, 30, dom)));
+    }
+    ls
+}
+
+fn gen_venue(rng: &mut Rng, max_changes: i64, dom: &Dom) -> (Vec<Chg>, Vec<String>) {
+    let (base, step, scale) = if dom.wide {
+        // 1e-8 ticks, 1e12 prices, 12 significant digits, a grid across 1
+        *rng.pick(&[(1i64, 1i64, 8u32), (1_000_000_000_000, 1, 0), (123_456_789_012, 1, 8), (99_999_998, 1, 8)])
+    } else {
+        *rng.pick(&[(100i64, 1i64, 0u32), (1000, 5, 1), (99990, 5, 2), (1, 1, 4)])
+    };
     let count = rng.range(1, 6);
     let grid: Vec<String> = (0..count).map(|i| dec_str(base + i * step, scale)).collect();
     let len = rng.range(1, max_changes);
     let contiguous = rng.chance(50);
-    let mut id = rng.range(0, 3) as u64;
+    let mut id = rng.range(0, 3) as u64 + dom.offset;
     let zero_pct = *rng.pick(&[15u64, 30, 50]);
     let mut v = vec![];
     for _ in 0..len {
@@ -678,7 +755,7 @@ fn gen_venue(rng: &mut Rng, max_changes: i64) -> (Vec<Chg>, Vec<String>) {
             id,
             bid: rng.chance(50),
             price: rng.pick(&grid).clone(),
-            amount: amount(rng, zero_pct),
+            amount: amount_dom(rng, zero_pct, dom),
         });
     }
     (v, grid)
@@ -695,13 +772,17 @@ fn venue_line(k: usize, v: &[Chg]) -> String {
 
 /// the REST snapshot at `s`; `depth = Some(d)`: cut to the best `d` levels per side (highest bids, lowest asks),
 /// what the venue answers to `…&limit=d`
-fn snap_line(op: &str, k: usize, v: &[Chg], s: u64, rng: &mut Rng, depth: Option<usize>) -> String {
+fn snap_line(op: &str, k: usize, v: &[Chg], s: u64, rng: &mut Rng, depth: Option<usize>, dom: &Dom) -> String {
     let d = depth.unwrap_or(usize::MAX);
     let mut b: Vec<String> = side_at(v, s, true).values().map(|(p, a)| format!("{p}:{a}")).collect();
     b.drain(..b.len().saturating_sub(d));
     let mut a: Vec<String> = side_at(v, s, false).values().take(d).map(|(p, a)| format!("{p}:{a}")).collect();
     shuffle(rng, &mut b);
     shuffle(rng, &mut a);
+    if dom.restyle {
+        restyle_levels(rng, &mut b);
+        restyle_levels(rng, &mut a);
+    }
     format!("{op} {k} {s} | {} | {}", b.join(" "), a.join(" "))
 }
 
@@ -776,10 +857,14 @@ struct Knobs {
     max_msgs: usize,
     /// per instrument the declared REST depth (depth-limited snapshots), `None` = full depth
     depths: Vec<Option<usize>>,
+    dom: Dom,
 }
 
 /// a frame that is not a depth update of a subscribed symbol
 fn noise_frame(rng: &mut Rng, k: &Knobs, template: Option<&Msg>) -> String {
+    if k.dom.binjunk && rng.chance(35) {
+        return format!("binbad {}", rng.below(9));
+    }
     match rng.below(12) {
         0 | 1 => "ping".into(),
         2 => "pong".into(),
@@ -841,14 +926,14 @@ fn gen_connection(out: &mut Out, rng: &mut Rng, k: &Knobs, venues: &[(Vec<Chg>, 
             .unwrap_or(base.len());
         if fail_init && i == fail_k {
             if rng.chance(50) {
-                snaps.push(snap_line("snapu", i, &v, s, rng, k.depths[i]));
+                snaps.push(snap_line("snapu", i, &v, s, rng, k.depths[i], &k.dom));
             }
         } else {
-            snaps.push(snap_line("snap", i, &v, s, rng, k.depths[i]));
+            snaps.push(snap_line("snap", i, &v, s, rng, k.depths[i], &k.dom));
             if rng.chance(2) {
                 // a second REST snapshot for the same instrument (duplicated subscription)
                 let s2 = rng.pick(&v).id;
-                snaps.push(snap_line("snap", i, &v, s2, rng, k.depths[i]));
+                snaps.push(snap_line("snap", i, &v, s2, rng, k.depths[i], &k.dom));
             }
         }
         if let Some(mc) = base.get(cover) {
@@ -869,6 +954,32 @@ fn gen_connection(out: &mut Out, rng: &mut Rng, k: &Knobs, venues: &[(Vec<Chg>, 
                 };
                 let at = rng.below(d.len() as u64 + 1) as usize;
                 d.insert(at, m);
+            }
+        }
+        if k.dom.cont_garbage && !d.is_empty() {
+            // non-genuine updates that continue a delivered one: futures admits any U once pu = previous u
+            // (also U > u, U = 0, u = previous u); spot needs U = previous u + 1
+            for _ in 0..rng.range(1, 3) {
+                let at = rng.below(d.len().min(k.max_msgs) as u64) as usize;
+                let prev = d[at].clone();
+                let last = prev.last + rng.below(3);
+                let first = *rng.pick(&[0, prev.last + 1, prev.last + 1, last + 1, last + 3, prev.first, prev.last]);
+                let pu = *rng.pick(&[prev.last, prev.last, prev.last, prev.pu, last]);
+                let m = Msg {
+                    sym: i,
+                    first,
+                    last,
+                    pu,
+                    bids: garbage_side_dup(rng, &grid, &k.dom),
+                    asks: garbage_side_dup(rng, &grid, &k.dom),
+                };
+                d.insert(at + 1, m);
+            }
+        }
+        if k.dom.restyle {
+            for m in d.iter_mut() {
+                restyle_levels(rng, &mut m.bids);
+                restyle_levels(rng, &mut m.asks);
             }
         }
         d.truncate(k.max_msgs);
@@ -917,7 +1028,7 @@ fn gen_connection(out: &mut Out, rng: &mut Rng, k: &Knobs, venues: &[(Vec<Chg>, 
     }
 }
 
-fn gen_random_case(out: &mut Out, rng: &mut Rng, thorough: bool, partial: bool) {
+fn gen_random_case(out: &mut Out, rng: &mut Rng, thorough: bool, partial: bool, dom: &Dom) {
     let spot = rng.chance(50);
     let n = *rng.pick(&[1usize, 1, 2, 3]);
     let m = match rng.below(10) {
@@ -929,14 +1040,15 @@ fn gen_random_case(out: &mut Out, rng: &mut Rng, thorough: bool, partial: bool) 
     let mut k = Knobs {
         spot,
         n,
-        non_genuine: rng.chance(10),
+        non_genuine: rng.chance(if dom.cont_garbage { 40 } else { 10 }),
         extras: rng.chance(40),
-        noise_pct: *rng.pick(&[0u64, 10, 25]),
+        noise_pct: if dom.binjunk { *rng.pick(&[15u64, 25]) } else { *rng.pick(&[0u64, 10, 25]) },
         clean_pct: *rng.pick(&[30u64, 60, 90]),
         max_msgs: if thorough { 14 } else { 9 },
         depths: vec![None; n],
+        dom: *dom,
     };
-    let venues: Vec<(Vec<Chg>, Vec<String>)> = (0..n).map(|_| gen_venue(rng, if thorough { 40 } else { 24 })).collect();
+    let venues: Vec<(Vec<Chg>, Vec<String>)> = (0..n).map(|_| gen_venue(rng, if thorough { 40 } else { 24 }, dom)).collect();
     for (i, (v, _)) in venues.iter().enumerate() {
         out.line(venue_line(i, v));
     }
@@ -1053,14 +1165,31 @@ fn generate(seed: u64, n_cases: usize, tier: &str) {
     for _ in 0..n_cases {
         id += 1;
         out.case(format!("r{id}"));
-        gen_random_case(&mut out, &mut rng, thorough, false);
+        gen_random_case(&mut out, &mut rng, thorough, false, &Dom::default());
     }
     // depth-limited snapshots: extra cases from an independent stream (the cases above are unchanged)
     let mut prng = Rng::new(seed ^ 0x9e37_79b9_7f4a_7c15);
     for _ in 0..(n_cases / 4).max(if n_cases > 0 { 10 } else { 0 }) {
         id += 1;
         out.case(format!("p{id}"));
-        gen_random_case(&mut out, &mut prng, thorough, true);
+        gen_random_case(&mut out, &mut prng, thorough, true, &Dom::default());
+    }
+    // input-domain family (a third independent stream; the cases above are unchanged): ids beyond 2^32 / 2^53 /
+    // 2^63 and next to 2^64, extreme exact magnitudes, respelt prices, continuing non-genuine updates
+    let mut drng = Rng::new(seed ^ 0x51ed_270b_c0de_d06e);
+    for j in 0..(n_cases / 8).max(if n_cases > 0 { 10 } else { 0 }) {
+        id += 1;
+        out.case(format!("d{id}"));
+        let dom = Dom {
+            // every offset class in turn, so that a short run has them all
+            offset: OFFSETS[j % OFFSETS.len()],
+            wide: drng.chance(50),
+            restyle: drng.chance(50),
+            cont_garbage: drng.chance(40),
+            binjunk: drng.chance(50),
+        };
+        let partial = drng.chance(25);
+        gen_random_case(&mut out, &mut drng, thorough, partial, &dom);
     }
     out.flush();
 }
